@@ -3,7 +3,11 @@ package model
 import (
 	"encoding/json"
 	"errors"
+	"fmt"
 	"math"
+	mbig "math/big"
+	"net"
+	"net/url"
 	"strings"
 	"time"
 )
@@ -73,6 +77,16 @@ type (
 
 func ptrTo[T any](v T) *T { return &v }
 
+// ValStringer / ValErrorer: user types whose String / Error methods have value receivers (calling them through a nil
+// pointer dereferences nil).
+type ValStringer struct{ N int }
+
+func (v ValStringer) String() string { return fmt.Sprintf("stringer-%d", v.N) }
+
+type ValErrorer struct{ Msg string }
+
+func (v ValErrorer) Error() string { return "errorer:" + v.Msg }
+
 func init() {
 	s := "pointed"
 	i := 42
@@ -134,6 +148,17 @@ func init() {
 		"slice-of-uint8":   func() any { return []uint8{1, 2, 255} },
 		"bytes":            func() any { return []byte("bytes\xff") },
 		"array":            func() any { return Arr2{1, 2} },
+		"nil-ptr-url":      func() any { return (*url.URL)(nil) },
+		"nil-ptr-duration": func() any { return (*time.Duration)(nil) },
+		"nil-ptr-time":     func() any { return (*time.Time)(nil) },
+		"nil-ptr-ip":       func() any { return (*net.IP)(nil) },
+		"nil-ptr-bigint":   func() any { return (*mbig.Int)(nil) },
+		"nil-ptr-stringer": func() any { return (*ValStringer)(nil) },
+		"nil-ptr-errorer":  func() any { return (*ValErrorer)(nil) },
+		"stringer":         func() any { return ValStringer{N: 3} },
+		"ptr-url":          func() any { u, _ := url.Parse("https://example.com/x?y=1"); return u },
+		"ip":               func() any { return net.IPv4(10, 0, 0, 1) },
+		"bigint":           func() any { return mbig.NewInt(12345) },
 		"bytes-empty":      func() any { return []byte{} },
 		"bytes-15":         func() any { return make([]byte, 15) },
 		"bytes-16":         func() any { return []byte("0123456789abcdef") },
